@@ -49,9 +49,9 @@ def _imp():
 
 
 def translate():
-    from translator import extract_geodesy
+    from translator import extract_c05, extract_geodesy
 
-    return extract_geodesy.write_all()
+    return {**extract_geodesy.write_all(), **extract_c05.write_all()}
 
 
 def run(ctx: Ctx):
@@ -66,7 +66,11 @@ def run(ctx: Ctx):
                 "(3,), (1,3), (n,3); both directions. Operation sequences (length 1..6) of convert / row-slice / fancy "
                 "index-view-copy / subset / ±delta / deepcopy / PosVel.pos / empty_from / insert on Position and PosVel "
                 "objects created on every registered ellipsoid. A point is non-trivial when off the special sets; a "
-                "sequence when it contains an operation that builds a new object through a constructor call.")
+                "sequence when it contains an operation that builds a new object through a constructor call. Arithmetic: "
+                "every operand order pos±delta / delta±pos / delta±delta / pos−pos / pos+pos / pos±=delta, Position and PosVel, "
+                "shapes (3,),(1,3),(n,3), position operand, second operand and the differences' ref_pos on independently drawn "
+                "ellipsoids (all 7x7 pairs first), same and different systems; non-trivial when two ellipsoids are involved. "
+                "Dataset.extend (append/prepend-empty, extend, mixed ellipsoids) on position/posvel fields of every ellipsoid.")
     ctx.trusted += ["mpmath (tooling venv) as high-precision reference: the accuracy figures of the one-step algorithm are "
                     "MEASURED on the sampled points, not proved",
                     "floating-point error is measured (Float model vs NumPy: lat/lon <= 4 ulp or 1e-15 rad, height <= 4 ulp of "
@@ -79,6 +83,8 @@ def run(ctx: Ctx):
     check_table(ctx)
     check_conversions(ctx)
     check_flow(ctx)
+    check_arith(ctx)
+    check_external_sites(ctx)
     ctx.traces = ctx.evaluations
 
 
@@ -100,6 +106,9 @@ def check_table(ctx: Ctx):
         case = {"fn": "ellipsoid parameters", "ellipsoid": name, "a": E.a, "f_inv": E.f_inv}
         ctx.case(case)
         ctx.count("ellipsoid-params")
+        if not (math.isfinite(E.a) and not math.isnan(E.f_inv)):
+            gviolate(ctx, "params:non-finite", f"{name}: defining constants a = {E.a!r}, f_inv = {E.f_inv!r}", case)
+            continue
         row = drv.ask1(f"c05 ell {name}")
         want = f"{common.rs(frac(E.a))} {'-' if math.isinf(E.f_inv) else common.rs(frac(E.f_inv))}"
         if row != want:
@@ -107,31 +116,74 @@ def check_table(ctx: Ctx):
             continue
         qf, qb, qe2 = rats(drv.ask1(f"c05 q params {name}"))
         ff, fb, fe2 = floats(drv.ask1(f"c05 f params {name}"))
-        impl = (float(E.f), float(E.b), float(E.e2))
+        # ---- every outcome of the real code is classified: exceptions and non-finite values are oracle failures
+        impl, bad = [], []
+        for attr in ("f", "b", "e2", "eps"):
+            try:
+                v = float(getattr(E, attr))
+            except Exception as e:  # noqa: BLE001
+                v = math.nan
+                bad.append(f"{attr} raises {type(e).__name__}")
+            else:
+                if not math.isfinite(v):
+                    bad.append(f"{attr} = {v!r}")
+            impl.append(v)
+        # the closed forms of the defining constants (a, 1/f), exact: f = 1/f_inv (0 for the sphere), b = a(1-f),
+        # e2 = 2f - f², eps = e2/(1-e2) -- independent of the object under test and of the model
+        a = frac(E.a)
+        f_x = Fraction(0) if math.isinf(E.f_inv) else 1 / frac(E.f_inv)
+        b_x, e2_x = a * (1 - f_x), 2 * f_x - f_x * f_x
+        eps_x = e2_x / (1 - e2_x)
+        pcase = {**case, "f": impl[0], "b": impl[1], "e2": impl[2], "eps": impl[3],
+                 "closed_forms": {"f": float(f_x), "b": float(b_x), "e2": float(e2_x), "eps": float(eps_x)}}
+        if bad:
+            gviolate(ctx, "params:non-finite", f"{name} (a = {E.a!r}, f_inv = {E.f_inv!r}): " + ", ".join(bad)
+                     + f"; the closed forms are f = {float(f_x)!r}, b = {float(b_x)!r}, e2 = {float(e2_x)!r}", pcase)
+            ctx.count("ellipsoid-params:non-finite")
+            continue
         if not (close(impl[0], ff, ulp=1) and close(impl[1], fb, ulp=1) and close(impl[2], fe2, ulp=1)):
-            gdisagree(ctx, "Ellipsoid.f/b/e2 (Float model)", case, [ff, fb, fe2], list(impl))
+            gdisagree(ctx, "Ellipsoid.f/b/e2 (Float model)", case, [ff, fb, fe2], list(impl[:3]))
         # exact twin: the doubles are within rounding of the exact rational values of the same formulas
         if (abs(frac(impl[0]) - qf) > Fraction(1, 10**18) or abs(frac(impl[1]) - qb) > Fraction(2, 10**9)
                 or abs(frac(impl[2]) - qe2) > Fraction(5, 10**16)):
-            gdisagree(ctx, "Ellipsoid.f/b/e2 (Rat model)", case, [float(qf), float(qb), float(qe2)], list(impl))
+            gdisagree(ctx, "Ellipsoid.f/b/e2 (Rat model)", case, [float(qf), float(qb), float(qe2)], list(impl[:3]))
+        # the model's exact values are the closed forms (also proved: `ellipsoid_params`, `sphere_f_zero`)
+        if (qf, qb, qe2) != (f_x, b_x, e2_x):
+            gdisagree(ctx, "closed forms of f/b/e2 (Rat model)", case, [float(qf), float(qb), float(qe2)], [float(f_x), float(b_x), float(e2_x)])
         # oracle: the defining relations, directly on the real object (exact arithmetic on its doubles)
-        a, f, b, e2 = frac(E.a), frac(E.f), frac(E.b), frac(E.e2)
-        if abs(b - a * (1 - f)) > Fraction(2, 10**9):
-            gviolate(ctx, "params:b=a(1-f)", f"{name}: b = {E.b!r} but a(1-f) = {float(a * (1 - f))!r}", case)
-        if abs(e2 - (2 * f - f * f)) > Fraction(5, 10**16):
-            gviolate(ctx, "params:e2=2f-f²", f"{name}: e2 = {E.e2!r} but 2f - f² = {float(2 * f - f * f)!r}", case)
+        f, b, e2, eps = (frac(v) for v in impl)
+        if abs(f - f_x) > Fraction(1, 10**18):
+            gviolate(ctx, "params:f=1/f_inv", f"{name}: f = {impl[0]!r} but 1/f_inv = {float(f_x)!r}", pcase)
+        if abs(b - b_x) > Fraction(2, 10**9) or abs(b - a * (1 - f)) > Fraction(2, 10**9):
+            gviolate(ctx, "params:b=a(1-f)", f"{name}: b = {E.b!r} but a(1-f) = {float(b_x)!r}", pcase)
+        if abs(e2 - e2_x) > Fraction(5, 10**16) or abs(e2 - (2 * f - f * f)) > Fraction(5, 10**16):
+            gviolate(ctx, "params:e2=2f-f²", f"{name}: e2 = {E.e2!r} but 2f - f² = {float(e2_x)!r}", pcase)
+        if abs(eps - eps_x) > Fraction(5, 10**16):
+            gviolate(ctx, "params:eps=e2/(1-e2)", f"{name}: eps = {impl[3]!r} but e2/(1-e2) = {float(eps_x)!r}", pcase)
         if math.isinf(E.f_inv) and not (E.f == 0 and E.e2 == 0 and E.b == E.a):
-            gviolate(ctx, "params:sphere", f"{name}: f_inv = inf but f, e2, b = {E.f!r}, {E.e2!r}, {E.b!r}", case)
+            gviolate(ctx, "params:sphere", f"{name}: f_inv = inf but f, e2, b = {E.f!r}, {E.e2!r}, {E.b!r}", pcase)
         if not (E.a > 0 and E.f_inv > 1):
-            gviolate(ctx, "params:range", f"{name}: a = {E.a!r}, f_inv = {E.f_inv!r}", case)
+            gviolate(ctx, "params:range", f"{name}: a = {E.a!r}, f_inv = {E.f_inv!r}", pcase)
 
 
 # --------------------------------------------------------------------------------------------------
 # points
 
 
+class Consts:
+    """a, f, b, e2 of an ellipsoid from its defining constants (a, 1/f) alone -- what the generator and the oracles use, so
+    that a wrong derived parameter of the object under test cannot leak into the inputs or the expectations"""
+
+    def __init__(self, E):
+        self.a = float(E.a)
+        self.f = 0.0 if math.isinf(E.f_inv) else 1.0 / float(E.f_inv)
+        self.b = self.a * (1 - self.f)
+        self.e2 = self.f * (2 - self.f)
+
+
 def gen_point(rng, E):
     """(kind, xyz) — a point given in Cartesian coordinates"""
+    E = Consts(E)
     k = rng.random()
     band = rng.random()
     h = rng.uniform(-1e5, 1e5) if band < 0.55 else (rng.uniform(1e5, 5e7) if band < 0.95 else rng.choice([0.0, -1e5, 1e5, 5e7]))
@@ -253,6 +305,7 @@ def check_conversions(ctx: Ctx):
             if not all(close(a_, b_, ulp=4, abs_=rad * 4.5e-16) for a_, b_ in zip(back[i], mx)):
                 gdisagree(ctx, "transformation.llh2trs (Float model)", {**case, "i": i}, mx, back[i].tolist())
         # ---- oracle, float part
+        K = Consts(E)
         for i in range(m):
             lat, lon, h = llh[i].tolist()
             x, y, z = xyz[i]
@@ -265,16 +318,28 @@ def check_conversions(ctx: Ctx):
                 gviolate(ctx, "ranges:lat-lon", f"{ell}: lat = {lat!r}, lon = {lon!r}", {**case, "i": i})
             if z != 0 and math.copysign(1, lat) != math.copysign(1, z) and lat != 0:
                 gviolate(ctx, "sign:latitude-hemisphere", f"{ell}: z = {z!r} but lat = {lat!r}", {**case, "i": i})
-            if kinds[i] == "pole" and not (abs(abs(lat) - PI / 2) == 0 and abs(h - (abs(z) - E.b)) <= 1e-9):
-                gviolate(ctx, "pole", f"{ell}: on the axis at z = {z!r}: lat = {lat!r}, h = {h!r}, |z| - b = {abs(z) - E.b!r}", {**case, "i": i})
+            if kinds[i] == "pole" and not (abs(abs(lat) - PI / 2) == 0 and abs(h - (abs(z) - K.b)) <= 1e-9):
+                gviolate(ctx, "pole", f"{ell}: on the axis at z = {z!r}: lat = {lat!r}, h = {h!r}, |z| - a(1-f) = {abs(z) - K.b!r}", {**case, "i": i})
+            if kinds[i] == "near-axis" and x * x + y * y <= (K.a * 1e-16) ** 2 * (1 - 1e-6) and not (abs(abs(lat) - PI / 2) <= 1e-15 and abs(h - (abs(z) - K.b)) <= 1e-9):
+                gviolate(ctx, "pole", f"{ell}: within a*1e-16 of the axis at z = {z!r}: lat = {lat!r}, h = {h!r}, |z| - a(1-f) = {abs(z) - K.b!r}", {**case, "i": i})
             if kinds[i] == "equator" and not (lat == 0 and abs(h - (math.hypot(x, y) - E.a)) <= 4 * math.ulp(rad) + 1e-9):
                 gviolate(ctx, "equator", f"{ell}: in the equatorial plane: lat = {lat!r}, h = {h!r}, p - a = {math.hypot(x, y) - E.a!r}", {**case, "i": i})
+            if z == 0 and not lat == 0:
+                gviolate(ctx, "equator", f"{ell}: z = {z!r} but lat = {lat!r} (theorem lat_sign_every_height: exactly 0)", {**case, "i": i})
+            if rad > K.e2 * K.a:
+                ctx.count("point:outside-singular-ball(e2*a)")
             if kinds[i] == "meridian180" and not abs(abs(lon) - PI) <= 1e-15:
                 gviolate(ctx, "meridian180", f"{ell}: y = {y!r}, x = {x!r} but lon = {lon!r}", {**case, "i": i})
             # mirror image: the southern hemisphere
             ml = np.asarray(T.trs2llh(np.array([x, y, -z]), E), dtype=float).reshape(-1, 3)[0]
             if not (close(ml[0], -lat, ulp=8, abs_=1e-15) and abs(ml[2] - h) <= 4 * math.ulp(rad) + 1e-9 and ml[1] == lon):
                 gviolate(ctx, "mirror:z->-z", f"{ell}: trs2llh(x, y, -z) = {ml.tolist()} but trs2llh(x, y, z) = {[lat, lon, h]}", {**case, "i": i})
+            if not (all(math.isfinite(v) for v in (lat, lon, h)) and np.isfinite(back[i]).all()):
+                # classified here; the reference computation is for finite results only
+                gviolate(ctx, "non-finite:trs2llh" if not all(math.isfinite(v) for v in (lat, lon, h)) else "non-finite:llh2trs",
+                         f"{ell}: trs2llh({xyz[i]}) = {[lat, lon, h]}, llh2trs of that = {back[i].tolist()} (kind {kinds[i]}; "
+                         f"a = {E.a!r}, b = {E.b!r}, e2 = {E.e2!r})", {**case, "i": i})
+                continue
             pending.append((ell, kinds[i], xyz[i], [lat, lon, h], {**case, "i": i}))
         # same numbers whatever the shape
         if m == 1:
@@ -530,13 +595,35 @@ def apply_op(rng, op, obj, cls, force=None):
         return obj.subset(idx, {}), v
     if op == "addDelta":
         D = PositionDelta if cls == "position" else PosVelDelta
-        delta = D(np.zeros(obj.shape), obj.system, ref_pos=obj)
-        v = pick(["p+d", "p-d", "d+p"])
-        if v == "p+d":
+        P = Position if cls == "position" else PosVel
+        forms = ["p+d", "p-d", "d+p", "d-p", "p+=d", "p-=d"]
+        if force and "@" in force:
+            form, ref_name = force.split("@")
+        else:
+            form = rng.choice(forms + ["p+d", "d+p"])
+            # the difference refers to a position of its own, on an ellipsoid drawn independently ("self": the usual `ref_pos=obj`)
+            ref_name = rng.choice(list(ellipsoid._ELLIPSOIDS) + ["self"])
+        if ref_name == "self":
+            ref = obj
+        else:
+            ref = P(np.asarray(obj, dtype=float) + 100.0, obj.system, ellipsoid=ellipsoid.get(ref_name))
+        delta = D(np.zeros(obj.shape), obj.system, ref_pos=ref)
+        v = f"{form}@{ref_name}"
+        if form == "p+d":
             return obj + delta, v
-        if v == "p-d":
+        if form == "p-d":
             return obj - delta, v
-        return delta + obj, v
+        if form == "d+p":
+            return delta + obj, v
+        if form == "d-p":
+            return delta - obj, v
+        if form == "p+=d":
+            x = obj
+            x += delta
+            return x, v
+        x = obj
+        x -= delta
+        return x, v
     if op == "deepcopy":
         return copy.deepcopy(obj), "deepcopy"
     if op == "posOf":
@@ -579,7 +666,7 @@ def run_sequence(ctx, rng, cls0, ell, ops, ctor_kinds, forced=None, nrows=None, 
     case = {"fn": "ellipsoid flow", "class": cls0, "ellipsoid": ell, "ops": ops, "rows": nrows, "ndim": int(obj.ndim)}
     forced = list(forced or [])
     cls = cls0
-    done, variants = [], []
+    done, variants, wire = [], [], []
     failed = False
     for op in ops:
         if op == "posOf" and (cls == "position" or obj.system != "trs"):
@@ -599,6 +686,13 @@ def run_sequence(ctx, rng, cls0, ell, ops, ctor_kinds, forced=None, nrows=None, 
         mop = machine_op(op, variant, ctor_kinds)
         done.append(mop)
         variants.append(variant)
+        if mop == "addDelta":
+            form, ref_name = variant.split("@")
+            ref_ell = getattr(getattr(obj, "ellipsoid", None), "name", ell) if ref_name == "self" else ref_name
+            wire.append(f"wd:{0 if '-' in form else 1}:{1 if form.startswith('d') else 0}:{ref_ell if ref_ell in ellipsoid._ELLIPSOIDS else ell}")
+            ctx.count(f"flow:addDelta:{form}:{'own' if ref_name == 'self' else ('same' if ref_ell == getattr(getattr(obj, 'ellipsoid', None), 'name', None) else 'foreign')}-ellipsoid")
+        else:
+            wire.append(f"un:{mop}")
         got = getattr(res, "ellipsoid", None)
         got_name = getattr(got, "name", repr(type(got).__name__))
         prev = getattr(obj, "ellipsoid", None)
@@ -624,7 +718,7 @@ def run_sequence(ctx, rng, cls0, ell, ops, ctor_kinds, forced=None, nrows=None, 
     if failed:
         return
     # ---- correspondence: the machine over the regenerated table predicts the tag of the real object
-    ans = drv.ask1(f"c05 flow {cls0} {ell} {','.join(done)}")
+    ans = drv.ask1(f"c05 hflow {cls0} {ell} {','.join(wire)}")
     toks = ans.split()
     got = getattr(obj, "ellipsoid", None)
     got_name = got.name if hasattr(got, "name") else "?"
@@ -671,6 +765,229 @@ def check_flow(ctx: Ctx):
             gviolate(ctx, f"raises:roundtrip:{type(e).__name__}", f"round trip raised {e}", case)
 
 
+# --------------------------------------------------------------------------------------------------
+# arithmetic: every operand order, operands and the differences' reference positions on different ellipsoids
+
+ARITH_FORMS = ["pos+delta", "pos-delta", "delta+pos", "delta-pos", "delta+delta", "delta-delta", "pos-pos", "pos+pos",
+               "pos+=delta", "pos-=delta"]
+
+
+def _acls(x):
+    Position, PositionDelta, PosVel, PosVelDelta, PositionArray, PosVelArray, ellipsoid, T = _imp()
+    from midgard.data._position import PositionDeltaArray, PosVelDeltaArray
+
+    if isinstance(x, PosVelDeltaArray):
+        return "posvelDelta"
+    if isinstance(x, PositionDeltaArray):
+        return "posDelta"
+    if isinstance(x, PosVelArray):
+        return "posvel"
+    if isinstance(x, PositionArray):
+        return "position"
+    return None
+
+
+def _wire_operand(x):
+    c = _acls(x)
+    if c in ("position", "posvel"):
+        return f"pos:{c}:{getattr(getattr(x, 'ellipsoid', None), 'name', '?')}"
+    r = getattr(x, "ref_pos", None)
+    return f"delta:{c}:{_acls(r)}:{getattr(getattr(r, 'ellipsoid', None), 'name', '?')}"
+
+
+def check_arith(ctx: Ctx):
+    """`pos ± delta`, `delta ± pos`, `delta ± delta`, `pos − pos`, `pos + pos`, `pos ±= delta` on real objects whose operands
+    and reference positions live on independently drawn ellipsoids: oracle (the result that is a position is on the
+    ellipsoid of the position operand and converts on it; a difference refers to the left operand's position) and
+    correspondence with `binop` over the regenerated operator tables"""
+    Position, PositionDelta, PosVel, PosVelDelta, PositionArray, PosVelArray, ellipsoid, T = _imp()
+    drv, rng = ctx.driver, ctx.rng
+    names = list(ellipsoid._ELLIPSOIDS)
+    n = ctx.budget(500, 20000)
+    # boundary set first: every form x every (position ellipsoid, reference ellipsoid) pair on Position objects, one shape
+    todo = [("position", form, e1, e2, e2, "nxk", True) for form in ARITH_FORMS for e1 in names for e2 in names]
+    for _ in range(n):
+        todo.append((rng.choice(["position", "position", "posvel"]), rng.choice(ARITH_FORMS), rng.choice(names), rng.choice(names),
+                     rng.choice(names), rng.choice(["1d", "1xk", "nxk"]), rng.random() < 0.9))
+    for t in todo:
+        arith_one(ctx, rng, *t)
+
+
+def arith_one(ctx, rng, fam, form, e_pos, e_ref, e_ref2, shape, same_system):
+    Position, PositionDelta, PosVel, PosVelDelta, PositionArray, PosVelArray, ellipsoid, T = _imp()
+    drv = ctx.driver
+    for _once in (0,):
+        m = 1 if shape != "nxk" else rng.choice([2, 3])
+        case = {"fn": "arithmetic", "family": fam, "form": form, "ellipsoid": e_pos, "ref_ellipsoid": e_ref, "ref_ellipsoid2": e_ref2,
+                "shape": shape, "same_system": same_system}
+        try:
+            pos = as_shape_obj(make_obj(rng, fam, ellipsoid.get(e_pos), m), shape)
+            other = as_shape_obj(make_obj(rng, fam, ellipsoid.get(e_ref2), m), shape)      # a second position (pos - pos)
+            ref1 = as_shape_obj(make_obj(rng, fam, ellipsoid.get(e_ref), m), shape)
+            ref2 = as_shape_obj(make_obj(rng, fam, ellipsoid.get(e_ref2), m), shape)
+            D = PositionDelta if fam == "position" else PosVelDelta
+            dv1 = np.array([[rng.uniform(-50, 50) for _ in range(pos.shape[-1])] for _ in range(m)])
+            dv2 = np.array([[rng.uniform(-50, 50) for _ in range(pos.shape[-1])] for _ in range(m)])
+            d1 = D(as_shape(dv1.tolist(), shape), "trs", ref_pos=ref1)
+            d2 = D(as_shape(dv2.tolist(), shape), "trs", ref_pos=ref2)
+            if not same_system:
+                # the position operand in another system than the difference: every operator refuses (TypeError)
+                pos = pos.llh if fam == "position" else pos.kepler
+        except Exception as e:  # noqa: BLE001
+            gviolate(ctx, f"raises:arith-setup:{type(e).__name__}", f"building the operands raised {type(e).__name__}: {e}", case)
+            continue
+        L, op, R = {"pos+delta": (pos, "+", d1), "pos-delta": (pos, "-", d1), "delta+pos": (d1, "+", pos), "delta-pos": (d1, "-", pos),
+                    "delta+delta": (d1, "+", d2), "delta-delta": (d1, "-", d2), "pos-pos": (pos, "-", other), "pos+pos": (pos, "+", other),
+                    "pos+=delta": (pos, "+=", d1), "pos-=delta": (pos, "-=", d1)}[form]
+        if not same_system and form in ("delta+delta", "delta-delta"):
+            same_system_eff = True
+        elif not same_system and form in ("pos-pos", "pos+pos"):
+            same_system_eff = False   # pos is llh/kepler, other is trs
+        else:
+            same_system_eff = same_system
+        case["values"] = {"L": np.asarray(L, dtype=float).tolist(), "R": np.asarray(R, dtype=float).tolist()}
+        ctx.case(case, nontrivial=(e_pos != e_ref))
+        ctx.count(f"arith:{form}:{'one' if e_pos == e_ref else 'two'}-ellipsoids")
+        ctx.count(f"arith:family={fam}")
+        if not same_system_eff:
+            ctx.count("arith:other-system")
+        lv, rv = np.asarray(L, dtype=float).copy(), np.asarray(R, dtype=float).copy()
+        le, re_ = getattr(L, "ellipsoid", None), getattr(R, "ellipsoid", None)
+        try:
+            if op == "+":
+                res = L + R
+            elif op == "-":
+                res = L - R
+            elif op == "+=":
+                res = L
+                res += R
+            else:
+                res = L
+                res -= R
+            exc = None
+        except Exception as e:  # noqa: BLE001
+            res, exc = None, type(e).__name__
+        plus = op in ("+", "+=")
+        # ---- canonical outcome of the real code
+        if exc is not None:
+            impl = exc
+        elif res is None:
+            impl = "None"
+        elif _acls(res) is None:
+            impl = f"other:{type(res).__name__}"
+        else:
+            want = lv + rv if plus else lv - rv
+            alt = rv + lv if plus else rv - lv
+            got = np.asarray(res, dtype=float)
+            val = ("L+R" if plus else "L-R") if (got.shape == want.shape and np.array_equal(got, want)) else \
+                  (("R+L" if plus else "R-L") if (got.shape == alt.shape and np.array_equal(got, alt)) else "?")
+            impl = f"value {_wire_operand(res)} {val}"
+        # ---- oracle: the property, on the real objects
+        pos_operand = L if _acls(L) in ("position", "posvel") else (R if _acls(R) in ("position", "posvel") else None)
+        if exc is not None:
+            expected_error = (form == "pos+pos") or not same_system_eff
+            if not (expected_error and exc == "TypeError"):
+                gviolate(ctx, f"raises:arith:{form}:{exc}", f"{form} (position on {e_pos}, reference position on {e_ref}, shape {shape}) raised {exc}", case)
+        elif (form == "pos+pos" or not same_system_eff):
+            gviolate(ctx, f"arith:{form}:not-refused", f"{form} with operands in {'different systems' if not same_system_eff else 'the same system'} returned {impl} instead of raising TypeError", case)
+        elif _acls(res) in ("position", "posvel"):
+            E_want = pos_operand.ellipsoid if pos_operand is not None else None
+            if pos_operand is None or getattr(res, "ellipsoid", None) is not E_want:
+                gviolate(ctx, f"ellipsoid-lost:arith:{form}", f"{form}: the position operand is on {e_pos}, the difference refers to a position on {e_ref}; "
+                         f"the result is on {getattr(getattr(res, 'ellipsoid', None), 'name', '?')} (shape {shape})", case)
+            want = lv + rv if plus else lv - rv
+            if not np.array_equal(np.asarray(res, dtype=float), want):
+                gviolate(ctx, f"arith-values:{form}", f"{form}: values {np.asarray(res).tolist()} are not L {op[0]} R = {want.tolist()}", case)
+            elif fam == "position" and res.system == "trs":
+                # its geodetic coordinates are those of the same numbers on the ellipsoid of the position operand
+                E0 = ellipsoid.get(e_pos)
+                try:
+                    got_llh = np.asarray(res.llh, dtype=float)
+                    want_llh = np.asarray(T.trs2llh(want.copy(), E0), dtype=float).reshape(got_llh.shape)
+                    back = np.asarray(res.llh.trs, dtype=float)
+                    d_h = float(np.max(np.abs(got_llh[..., 2] - want_llh[..., 2])))
+                    d_lat = float(np.max(np.abs(got_llh[..., 0] - want_llh[..., 0]))) * E0.a
+                    err = float(np.max(np.abs(back - want)))
+                    if not (d_h <= 1e-6 and d_lat <= 1e-6 and err <= FAR):
+                        gviolate(ctx, f"convert-evaluated-on-other-ellipsoid:arith:{form}", f"{form}: (result).llh is off by {d_h:.3e} m in height / {d_lat:.3e} m in latitude from "
+                                 f"trs2llh on {e_pos}; .llh.trs off by {err:.3e} m (the difference refers to a position on {e_ref})", case)
+                except Exception as e:  # noqa: BLE001
+                    gviolate(ctx, f"raises:arith-convert:{type(e).__name__}", f"(result of {form}).llh raised {type(e).__name__}: {e}", case)
+        elif _acls(res) in ("posDelta", "posvelDelta"):
+            left_part = L if _acls(L) in ("position", "posvel") else getattr(L, "ref_pos", None)
+            r = getattr(res, "ref_pos", None)
+            if r is not left_part or getattr(r, "ellipsoid", None) is not (le if _acls(L) in ("position", "posvel") else getattr(left_part, "ellipsoid", None)):
+                gviolate(ctx, f"ellipsoid-lost:arith:{form}", f"{form}: the difference does not refer to the left operand's position on "
+                         f"{getattr(getattr(left_part, 'ellipsoid', None), 'name', '?')} but to a {_acls(r)} on {getattr(getattr(r, 'ellipsoid', None), 'name', '?')}", case)
+            want = lv + rv if plus else lv - rv
+            if not np.array_equal(np.asarray(res, dtype=float), want):
+                gviolate(ctx, f"arith-values:{form}", f"{form}: values {np.asarray(res).tolist()} are not L {op[0]} R = {want.tolist()}", case)
+        else:
+            gviolate(ctx, f"arith:{form}:result-type", f"{form} returned {impl}", case)
+        # operands untouched (their own ellipsoids included)
+        if not (np.array_equal(np.asarray(L, dtype=float), lv) and np.array_equal(np.asarray(R, dtype=float), rv)
+                and getattr(L, "ellipsoid", None) is le and getattr(R, "ellipsoid", None) is re_):
+            gviolate(ctx, f"arith-operands-changed:{form}", f"{form} changed one of its operands", case)
+        # ---- correspondence: `binop` over the regenerated operator tables
+        ans = drv.ask1(f"c05 arith {1 if plus else 0} {1 if same_system_eff else 0} {_wire_operand(L)} {_wire_operand(R)}")
+        model, spec = [t.strip() for t in ans.split("|")]
+        if model != impl:
+            gdisagree(ctx, "binary operators over the regenerated isinstance/factory tables", case, model, impl)
+        if spec not in ("spec -", "spec " + model) and same_system_eff:
+            gdisagree(ctx, "binop = specBinop (theorem arith_spec) on this input", case, model, spec)
+
+
+def check_external_sites(ctx: Ctx):
+    """the constructor calls outside _position.py (fieldtypes `_prepend_empty` / `_append_empty` / `_extend`, reached through
+    Dataset.extend): a position field created on ellipsoid E is still on E afterwards, and fields on two ellipsoids are refused"""
+    *_, ellipsoid, T = _imp()
+    from midgard.data import dataset
+
+    names = list(ellipsoid._ELLIPSOIDS)
+    for ell in names:
+        E = ellipsoid.get(ell)
+        for kind, k in (("position", 3), ("posvel", 6)):
+            def mk(n, with_site, e=E):
+                d = dataset.Dataset(num_obs=n)
+                d.add_float("x", val=np.zeros(n))
+                if with_site:
+                    getattr(d, "add_" + kind)("site", val=np.ones((n, k)) * 7.0e6, system="trs", ellipsoid=e)
+                return d
+            for how, (a, b) in (("append_empty", (mk(2, True), mk(3, False))), ("prepend_empty", (mk(3, False), mk(2, True))),
+                                ("extend", (mk(2, True), mk(2, True)))):
+                case = {"fn": "dataset extend", "kind": kind, "how": how, "ellipsoid": ell}
+                ctx.case(case, nontrivial=True)
+                ctx.count(f"external-site:{kind}:{how}")
+                try:
+                    a.extend(b)
+                    got = getattr(a.site, "ellipsoid", None)
+                except Exception as e:  # noqa: BLE001
+                    gviolate(ctx, f"raises:dataset-extend:{how}:{type(e).__name__}", f"Dataset.extend ({how}, {kind} on {ell}) raised {type(e).__name__}: {e}", case)
+                    continue
+                if got is not E:
+                    gviolate(ctx, f"ellipsoid-lost:dataset:{kind}:{how}", f"a {kind} field created on {ell} is on {getattr(got, 'name', '?')} after Dataset.extend ({how})", case)
+            other = names[(names.index(ell) + 1) % len(names)]
+            case = {"fn": "dataset extend", "kind": kind, "how": "mixed", "ellipsoid": ell, "other": other}
+            ctx.case(case, nontrivial=True)
+            try:
+                a, b = mk(2, True), mk(2, True, ellipsoid.get(other))
+                a.extend(b)
+                gviolate(ctx, f"ellipsoid-mixed:dataset:{kind}", f"Dataset.extend joined a {kind} field on {ell} with one on {other} (result on {getattr(getattr(a.site, 'ellipsoid', None), 'name', '?')})", case)
+            except ValueError:
+                ctx.count("external-site:mixed-refused")
+            except Exception as e:  # noqa: BLE001
+                gviolate(ctx, f"raises:dataset-extend:mixed:{type(e).__name__}", f"Dataset.extend of fields on {ell} and {other} raised {type(e).__name__}: {e}", case)
+
+
+def as_shape_obj(obj, shape):
+    """(n, k) position object → the requested shape (first row / first row as (1, k))"""
+    if shape == "1d":
+        return obj[0] if obj.ndim == 2 else obj
+    if shape == "1xk":
+        return obj[0:1]
+    return obj
+
+
 def replay(payload):
     """re-run the oracle on a stored case against $MIDGARD_REPO; exit code 1 when the violation reproduces"""
     import random
@@ -689,6 +1006,10 @@ def replay(payload):
         # the stored machine ops are re-applied with the stored variants on a fresh object of the same class / ellipsoid
         ops = [("fancy" if v in ("view", "view(1d)", "copy", "copy.copy", "list", "mask") else o) for o, v in zip(c.get("done", c["ops"]), c.get("variants", []))] or c["ops"]
         run_sequence(ctx, rng, c["class"], c["ellipsoid"], ops, kinds, forced=c.get("variants"), nrows=c.get("rows"), first_row=(c.get("ndim") == 1 and c.get("rows", 1) > 1))
+    elif fn == "arithmetic" and c.get("ellipsoid") in ellipsoid._ELLIPSOIDS:
+        arith_one(ctx, rng, c["family"], c["form"], c["ellipsoid"], c["ref_ellipsoid"], c["ref_ellipsoid2"], c["shape"], c["same_system"])
+    elif fn in ("ellipsoid parameters", "ellipsoid table"):
+        check_table(ctx)
     elif fn == "trs2llh/llh2trs" and c.get("ellipsoid") in ellipsoid._ELLIPSOIDS:
         E = ellipsoid.get(c["ellipsoid"])
         arr = as_shape(c["xyz"], c["shape"])
